@@ -93,6 +93,14 @@ def default_outside(version):
 
 def conversation(kind, version):
     """-> (server specs per TCP connection, client kwargs, entry)"""
+    if kind.endswith('+prior'):
+        # the same conversation on a Connection object that has already been
+        # through a session: a negotiating connect() whose status query was
+        # answered with '{}' (error reported, session over) - see run()
+        specs, kw, entry = conversation(kind[:-6], version)
+        other = 47 if version != 47 else 340
+        kw = dict(kw, allowed_versions={version, other})
+        return specs, kw, entry
     if kind == 'status':
         return ([{'version': version,
                   'status': {'reply': status_json(version)}}],
@@ -163,16 +171,31 @@ def run(kind, version, cut_link, cut_n, plan):
         if cut_n is not None and i == cut_link:
             sp['cut'] = cut_n
         srvs.append(servers.Server(sp))
+    prior = kind.endswith('+prior')
+    pre = [servers.Server({'version': version, 'status': {'reply': '{}'}})] \
+        if prior else []
     # extra connections (fallback) get a fresh copy of the last spec
-    world = vnet.World(servers=list(srvs),
+    world = vnet.World(servers=pre + list(srvs),
                        default=lambda addr: _extra(srvs, specs), plan=plan)
     seen = []
     status_calls = []
+    off = len(pre)
     with vnet.installed(world):
         conn, o = servers.make_connection(world, **kw)
+        if prior:
+            conn.connect()
+            st0 = world.settle()
+            if st0 != 'done' or len(o.exceptions) != 1 or \
+                    len(world.links) != 1:
+                # judged by C09/C16; here it is only the pre-history
+                from vlib.core import HarnessError
+                raise HarnessError('C15 prior session: %r %r' % (
+                    st0, [repr(e[0]) for e in o.exceptions]))
+            del o.exceptions[:]
+            o.exits = 0
         from minecraft.networking.packets import Packet
         conn.register_packet_listener(
-            lambda p: seen.append((len(world.links) - 1, p.id,
+            lambda p: seen.append((len(world.links) - 1 - off, p.id,
                                    getattr(p, 'keep_alive_id', None))),
             Packet, early=True)
         orig_accept = world.accept
@@ -194,7 +217,7 @@ def run(kind, version, cut_link, cut_n, plan):
         alive = world.settle()
     return {'world': world, 'servers': srvs, 'o': o, 'seen': seen,
             'status_calls': status_calls, 'alive': alive, 'err': err,
-            'conn': conn}
+            'conn': conn, 'links': world.links[off:]}
 
 
 def _extra(srvs, specs):
@@ -214,7 +237,7 @@ def boundaries(kind, version, link_index):
     specs, kw, entry = conversation(kind, version)
     r = run(kind, version, 0, None, 'whole')
     s = r['servers'][link_index]
-    link = r['world'].links[link_index]
+    link = r['links'][link_index]
     ends = []
     pos = 0
     for seq, k, info in link.events:
@@ -236,6 +259,9 @@ def cut_case(ctx, case):
     ctx.ev()
     r = run(kind, version, li, n, plan)
     world, o = r['world'], r['o']
+    if kind.endswith('+prior'):
+        ctx.label('after_an_earlier_failed_session')
+        kind = kind[:-6]
     inside = n not in ends and 0 < n < N
     if r['alive'] == 'timeout':
         from vlib.core import HarnessError
@@ -322,6 +348,8 @@ def cut_points(ends, N, quick):
 def t_conv(ctx, kind, version, shard, nshards, quick):
     nlinks = 2 if kind.startswith('negotiate') else 1
     plans = ['whole', 'one', [3, 1, 7, 2, 50]]
+    if kind.endswith('+prior'):
+        plans = ['whole']
     work = []
     for li in range(nlinks):
         ends, N, full = boundaries(kind, version, li)
@@ -367,7 +395,9 @@ def t_bigframe(ctx, version):
 
 
 def t_random(ctx, n):
-    strat = st.tuples(st.sampled_from(KINDS), st.sampled_from(PROTOCOLS),
+    strat = st.tuples(st.sampled_from(KINDS + ['status+prior',
+                                               'negotiate+prior']),
+                      st.sampled_from(PROTOCOLS),
                       st.integers(0, 1), st.integers(0, 10 ** 6),
                       st.one_of(st.just('whole'), st.just('one'),
                                 st.lists(st.integers(1, 64), min_size=1,
@@ -395,6 +425,11 @@ def tasks(tier):
                 tl.append(('%s_%d_%d' % (kind, v, s), t_conv,
                            dict(kind=kind, version=v, shard=s, nshards=ns,
                                 quick=q)))
+    for kind in ('status+prior', 'negotiate+prior', 'negotiate_out+prior'):
+        for v in (PROTOCOLS[::2] if q else PROTOCOLS):
+            tl.append(('%s_%d' % (kind, v), t_conv,
+                       dict(kind=kind, version=v, shard=0, nshards=1,
+                            quick=q)))
     for v in (PROTOCOLS[::3] if q else PROTOCOLS):
         tl.append(('bigframe_%d' % v, t_bigframe, dict(version=v)))
     for i in range(2 if q else 8):
